@@ -145,6 +145,9 @@ pub enum FieldTy {
 	/// a field whose Rust type is not the canonical type of its logical type (`lg` = the attribute;
 	/// None = no attribute, the logical type is inferred from the type's name)
 	Carried { lg: Option<Lg>, carrier: Carrier },
+	/// payload `T` of a variant of a GENERIC union enum (`enum E<T> { .., O(T) }`): a `Def::Union`
+	/// that contains it is generic over `T` and is used through `Ty::Gen(def, [arg])`
+	Param,
 	/// `#[avro_schema(skip)] #[serde(skip)]` member of type `rt::NoSchema` (neither BuildSchema
 	/// nor Serialize): a struct field, or the payload of a skipped enum variant
 	Skipped,
@@ -313,6 +316,7 @@ impl<'p> Placed<'p> {
 				(attr, ty)
 			}
 			FieldTy::Skipped => ("#[avro_schema(skip)] #[serde(skip)] ".into(), "rt::NoSchema".into()),
+			FieldTy::Param => (String::new(), "T".into()),
 		}
 	}
 
@@ -366,6 +370,7 @@ impl<'p> Placed<'p> {
 				(vals, format!("o.push_str(\"{{\\\"lg\\\":[\\\"{name}\\\",\"); Dom::describe($x, o); o.push_str(\"]}}\");"))
 			}
 			FieldTy::Skipped => ("vec![rt::NoSchema::default()]".into(), String::new()),
+			FieldTy::Param => ("<T as Dom>::values(rec)".into(), "Dom::describe($x, o);".into()),
 		}
 	}
 
@@ -413,7 +418,7 @@ impl<'p> Placed<'p> {
 			},
 			Ty::Gen(g, args) => match self.p.defs[*g] {
 				Def::Generic { shape: 1 } | Def::Generic { shape: 8 } => self.ty_nullable(&args[0]),
-				Def::Generic { shape: 9 } => true,
+				Def::Generic { shape: 9 } | Def::Union { .. } => true,
 				_ => false,
 			},
 			_ => false,
@@ -443,7 +448,7 @@ impl<'p> Placed<'p> {
 					FieldTy::Fixed(_) => Some(self.fullname(*i)),
 					FieldTy::Logical(Lg::DecFixed { .. }) | FieldTy::Logical(Lg::CustomFixed(_)) => Some(self.fullname(*i)),
 					FieldTy::Logical(Lg::Duration) => Some("Duration".into()),
-					FieldTy::OptBytes | FieldTy::Logical(_) | FieldTy::Carried { .. } | FieldTy::Skipped => None,
+					FieldTy::OptBytes | FieldTy::Logical(_) | FieldTy::Carried { .. } | FieldTy::Skipped | FieldTy::Param => None,
 				},
 				Def::Union { .. } | Def::Generic { .. } => None,
 			},
@@ -463,8 +468,42 @@ impl<'p> Placed<'p> {
 				Lg::DecFixed { .. } | Lg::CustomFixed(_) => Some(self.variant_owned_name(owner, variant_pos)),
 				_ => None,
 			},
-			FieldTy::OptBytes | FieldTy::Carried { .. } | FieldTy::Skipped => None,
+			FieldTy::OptBytes | FieldTy::Carried { .. } | FieldTy::Skipped | FieldTy::Param => None,
 		}
+	}
+	/// a union enum with a `T` payload is generic
+	pub fn is_generic_union(&self, i: usize) -> bool {
+		matches!(&self.p.defs[i], Def::Union { variants, .. } if variants.contains(&FieldTy::Param))
+	}
+	/// the type arguments a generic def is instantiated at in this program, in order of appearance
+	pub fn instantiations(&self, g: usize) -> Vec<Ty> {
+		fn ty(t: &Ty, g: usize, out: &mut Vec<Ty>) {
+			match t {
+				Ty::Opt(t) | Ty::Vec(t) | Ty::HMap(t) | Ty::BMap(t) | Ty::Ptr(_, t) => ty(t, g, out),
+				Ty::Gen(h, a) => {
+					if *h == g && !out.contains(&a[0]) {
+						out.push(a[0].clone());
+					}
+					a.iter().for_each(|t| ty(t, g, out));
+				}
+				_ => {}
+			}
+		}
+		let mut out = Vec::new();
+		for d in &self.p.defs {
+			let fs: Vec<&FieldTy> = match d {
+				Def::Struct { fields, .. } => fields.iter().collect(),
+				Def::Newtype { field } => vec![field],
+				Def::Union { variants, .. } => variants.iter().collect(),
+				_ => vec![],
+			};
+			for f in fs {
+				if let FieldTy::Plain(t) = f {
+					ty(t, g, &mut out);
+				}
+			}
+		}
+		out
 	}
 	fn variant_owned_name(&self, owner: usize, variant_pos: usize) -> String {
 		Self::join(&self.ns(owner), &format!("{}.V{variant_pos}", self.ident(owner)))
@@ -490,6 +529,10 @@ impl<'p> Placed<'p> {
 						if *v == FieldTy::Skipped {
 							continue;
 						}
+						if *v == FieldTy::Param {
+							// the branch of `T` depends on the instantiation: checked below
+							continue;
+						}
 						if self.field_nullable(v) {
 							return Err("nullable variant payload".into());
 						}
@@ -499,6 +542,21 @@ impl<'p> Placed<'p> {
 								if !seen.insert(b) {
 									return Err("two variants map to the same branch".into());
 								}
+							}
+						}
+					}
+					if variants.iter().filter(|v| **v == FieldTy::Param).count() > 1 {
+						return Err("two T-dependent variants".into());
+					}
+					if self.is_generic_union(i) {
+						for arg in self.instantiations(i) {
+							if self.ty_nullable(&arg) {
+								return Err("generic union enum instantiated at a nullable type".into());
+							}
+							match self.ty_branch(&arg) {
+								None => return Err("generic union enum instantiated at a type without a branch name".into()),
+								Some(b) if seen.contains(&b) => return Err("the type argument maps to the branch of another variant".into()),
+								Some(_) => {}
 							}
 						}
 					}
@@ -593,7 +651,10 @@ impl<'p> Placed<'p> {
 			Ty::Opt(t) | Ty::Vec(t) | Ty::HMap(t) | Ty::BMap(t) | Ty::Ptr(_, t) => self.walk_ty(t, recs, enums, seen),
 			Ty::Named(i) => self.walk_def(*i, recs, enums, seen),
 			Ty::Gen(g, a) => {
-				if !matches!(self.p.defs[*g], Def::Generic { shape } if Lg::newtype_shape(shape)) {
+				if matches!(self.p.defs[*g], Def::Union { .. }) {
+					// unnamed itself; its own variants may hold records / enums
+					self.walk_def(*g, recs, enums, seen);
+				} else if !matches!(self.p.defs[*g], Def::Generic { shape } if Lg::newtype_shape(shape)) {
 					recs.insert(self.canon(t));
 				}
 				for t in a {
@@ -650,7 +711,7 @@ impl<'p> Placed<'p> {
 		self.p.defs.iter().any(|d| matches!(d, Def::Union { .. }))
 	}
 	pub fn uses_generic(&self) -> bool {
-		self.p.defs.iter().any(|d| matches!(d, Def::Generic { .. }))
+		self.p.defs.iter().enumerate().any(|(i, d)| matches!(d, Def::Generic { .. }) || self.is_generic_union(i))
 	}
 	pub fn uses_newtype(&self) -> bool {
 		self.p.defs.iter().any(|d| matches!(d, Def::Newtype { .. }) || matches!(d, Def::Generic { shape } if Lg::newtype_shape(*shape)))
@@ -739,6 +800,8 @@ impl<'p> Placed<'p> {
 			Def::Union { variants, unit_at } => {
 				let pos = Self::variant_positions(variants.len(), *unit_at);
 				let total = variants.len() + unit_at.is_some() as usize;
+				let generic = self.is_generic_union(i);
+				let (decl_lt, impl_head) = if generic { ("<T>", format!("impl<T: Dom> Dom for {id}<T>")) } else { (decl_lt, format!("impl Dom for {impl_ty}")) };
 				s.push_str(&format!("{}\n{ns_attr_line}{vis}enum {id}{decl_lt} {{\n", Self::DERIVES));
 				let mut vals = String::new();
 				let mut desc = String::new();
@@ -756,6 +819,28 @@ impl<'p> Placed<'p> {
 						desc.push_str(&format!("\t\t\t{id}::V{p}(_) => o.push_str(\"{{\\\"skipped-variant\\\":0}}\"),\n"));
 						continue;
 					}
+					if *f == FieldTy::Param {
+						// the variant must be called like the branch `T` maps to: the first
+						// instantiation gives the name, further ones are serde aliases
+						let names: Vec<String> = {
+							let mut v: Vec<String> = Vec::new();
+							for arg in self.instantiations(i) {
+								let b = self.ty_branch(&arg).unwrap_or_else(|| "INVALID".into());
+								if !v.contains(&b) {
+									v.push(b);
+								}
+							}
+							v
+						};
+						let mut attr = format!("rename = \"{}\"", names.first().cloned().unwrap_or_else(|| "Unused".into()));
+						for n in names.iter().skip(1) {
+							attr.push_str(&format!(", alias = \"{n}\""));
+						}
+						s.push_str(&format!("\t#[serde({attr})]\n\tV{p}(T),\n"));
+						vals.push_str(&format!("\t\tfor x in <T as Dom>::values(rec) {{\n\t\t\tout.push({id}::V{p}(x));\n\t\t}}\n"));
+						desc.push_str(&format!("\t\t\t{id}::V{p}(x) => {{\n\t\t\t\to.push_str(\"{{\\\"varT\\\":\");\n\t\t\t\tDom::describe(x, o);\n\t\t\t\to.push('}}');\n\t\t\t}}\n"));
+						continue;
+					}
 					let branch = self.variant_branch(f, i, p).unwrap_or_else(|| "INVALID".into());
 					let (a, t) = self.field_src(f, lt);
 					s.push_str(&format!("\t#[serde(rename = \"{branch}\")]\n\tV{p}({a}{t}),\n"));
@@ -766,7 +851,7 @@ impl<'p> Placed<'p> {
 					));
 				}
 				s.push_str("}\n");
-				s.push_str(&format!("impl Dom for {impl_ty} {{\n\tfn values(rec: u32) -> Vec<Self> {{\n{rec_guard}\t\tlet mut out = Vec::new();\n{vals}\t\tout\n\t}}\n"));
+				s.push_str(&format!("{impl_head} {{\n\tfn values(rec: u32) -> Vec<Self> {{\n{rec_guard}\t\tlet mut out = Vec::new();\n{vals}\t\tout\n\t}}\n"));
 				s.push_str(&format!("\tfn describe(&self, o: &mut String) {{\n\t\tmatch self {{\n{desc}\t\t}}\n\t}}\n}}\n"));
 			}
 			Def::Generic { shape } => {
